@@ -48,12 +48,14 @@ PROPS.update({
               "Equality direction over 15 history variants per content (orders, detours through removed hyperedges and nodes), difference direction over every single edit, for all "
               "four container types on an enumerated small scope plus random contents. SHA-256 collision resistance is assumed.", "DESIGN.md §7 C07"),
     "C08": dict(level="exploration",
-                technique="contract-based deductive verification (AST->VC, z3) of degree and of every connectivity function of utils/cc.py against an assumed contract of _bfs + bounded run-time contract checking against union-find",
-                text=("degree/degree_sequence are proved equal to the cardinality of the set of (filtered) hyperedges containing the node; connected_components is proved to return "
-                      "each reachability class exactly once (loop invariant), and the six wrappers plus is_isolated/isolated_nodes are proved consistent with that partition under the "
-                      "SAME filter. The breadth-first search itself is outside the verified subset: its contract (returns the class of its start node; classes partition the nodes) is "
-                      "assumed in the proofs and checked at run time in the bounded tier, so the property as a whole is claimed as exploration."),
-                design_ref="DESIGN.md §7 C08", assumptions=["_bfs returns the reachability class of its start node (axioms comp_refl, comp_nodes, comp_class); checked in the bounded tier"]),
+                technique="contract-based deductive verification (AST->VC, z3) of degree, of the breadth-first search _bfs and of every connectivity function of utils/cc.py against the reachability classes defined as least closed sets (two induction lemmas checked by Lean) + bounded run-time contract checking against union-find",
+                text=("degree/degree_sequence are proved equal to the cardinality of the set of (filtered) hyperedges containing the node. COMP(hg, n, filter) is defined axiomatically as the least "
+                      "set containing n and closed under sharing a filtered hyperedge; _bfs is proved to return exactly that set (while-loop invariant over a queue modelled as a bag), "
+                      "connected_components to return each class exactly once, and the six wrappers plus is_isolated/isolated_nodes to be consistent with that partition under the SAME filter. "
+                      "That the classes of a symmetric relation are equal or disjoint and stay inside the node set needs induction: both lemmas are proved in Lean from the three definitional "
+                      "axioms (lean/Comp.lean, re-checked on every run). Termination, degree_distribution, the degree-sum identity and the other containers' sequences are left to the bounded "
+                      "tier, so the property as a whole is claimed as exploration."),
+                design_ref="DESIGN.md §7 C08", assumptions=["termination of _bfs is not proved", "which element deque.popleft() returns is not modelled (the result is proved for every choice)"]),
     "C09": _b("bounded run-time contract checking of every matrix/tensor function entry by entry against the definition under the returned mapping",
               "scipy.sparse / LabelEncoder code is outside the deductive engine; all hypergraphs on <= 4 nodes (six label/weight variants), all temporal hypergraphs with <= 3 timed "
               "hyperedges, seeded random larger ones, every order present or absent, keep_isolated_nodes both ways.", "DESIGN.md §7 C09"),
@@ -67,7 +69,7 @@ PROPS.update({
                 text=("The induced sub-hypergraph, the extraction by sizes and copy() carry contracts (exactly the selected hyperedges with original weights and metadata, "
                       "documented node set with original node metadata, same weightedness, source unmodified) discharged for all inputs through loop invariants over the "
                       "contracted add_edge/add_edges/add_nodes/set_*_metadata (get_edges(subhypergraph=True): positional pairing of hyperedges and weights through add_edges' fold contract); the largest component "
-                      "is the induced sub-hypergraph of a largest class of the same filter (assumed _bfs contract); copy-independence and every route once more are covered by the bounded tier."),
+                      "is the induced sub-hypergraph of a largest class of the same filter (through the verified _bfs); copy-independence and every route once more are covered by the bounded tier."),
                 design_ref="DESIGN.md §7 C05", assumptions=["copy.deepcopy: equal value, no sharing (assumed library contract; independence checked in the bounded tier)"]),
     "C11": _b("bounded run-time contract checking of the motif census against brute-force enumeration of all 3-/4-node subsets, relabelling and insertion-order invariance",
               "Closures over mutable dictionaries, recursion and itertools put the census outside the deductive engine, and the property is a global counting identity: it is checked on "
